@@ -3,25 +3,37 @@
 //
 //	racecmd batch <seed> <count>     scenarios seed*1000 … seed*1000+count-1
 //	racecmd one <id>                 a single scenario
+//	racecmd only <mode> <seed> <n>   the first n scenarios of one kind from seed*1000 on
 package main
 
 import (
 	"fmt"
 	"os"
 	"strconv"
+	"strings"
 	"time"
 
 	"zv/props/c34/rig"
 )
 
+func modeOf(id uint64) string {
+	return []string{"graceful", "chaos", "reneg", "keyupdate", "deadline", "chaos", "tail", "chaos", "reneg", "tail"}[id%10]
+}
+
 func run(id uint64) bool {
-	// of 6 consecutive ids: 1 graceful, 3 chaos, 1 keyupdate (TLS 1.3 only), 1 deadline
-	mode := []string{"graceful", "chaos", "chaos", "keyupdate", "deadline", "chaos"}[id%6]
+	// of 10 consecutive ids: 1 graceful, 3 chaos, 1 keyupdate (TLS 1.3 only), 1 deadline, 2 reneg (TLS 1.0-1.2), 2 tail
+	mode := modeOf(id)
 	ver := 12 + int(id>>1)%2
-	if mode == "keyupdate" {
+	tailX := 0
+	switch mode {
+	case "keyupdate":
 		ver = 13
+	case "reneg":
+		ver = rig.RenegVersion(id)
+	case "tail":
+		ver, tailX = rig.TailParams(id)
 	}
-	fmt.Fprintf(os.Stderr, "SCENARIO %d %s %d\n", id, mode, ver)
+	fmt.Fprintf(os.Stderr, "SCENARIO %d %s %d (load factor %.1f)\n", id, mode, ver, rig.LoadFactor())
 	var v string
 	var st rig.Stats
 	extra := ""
@@ -33,6 +45,12 @@ func run(id uint64) bool {
 	case "deadline":
 		v, st = rig.RunDeadlineScenario(id, ver, 45*time.Second)
 		extra = fmt.Sprintf(" timeouts=%d gates=%v gatetimeouts=%v spans=%d alertgates=%d keyupdates=%d", st.Timeouts, st.Gates, st.GateTimeouts, st.Spans, st.AlertGates, st.KeyUpdates)
+	case "reneg":
+		v, st = rig.RunRenegScenario(id, ver, 30*time.Second)
+		extra = fmt.Sprintf(" peer=%s policy=%s helloreqs=%d renegs=%d refused=%d writeretries=%d", st.RenegMode, st.RenegPolicy, st.HelloReqs, st.Renegs, st.Refused, st.WriteRetries)
+	case "tail":
+		v, st = rig.RunTailScenario(id, ver, tailX, 30*time.Second)
+		extra = fmt.Sprintf(" x=%s resumed=%v slow=%s racers=%s disruptive=%v nodeadlines=%v closewriteok=%v", st.TailX, st.TailResumed, st.TailWhere, strings.ReplaceAll(strings.Join(st.TailKinds, "+"), " ", ""), st.TailDisruptive, st.TailNoDeadlines, st.TailCloseWriteOK)
 	default:
 		v, st = rig.RunScenario(id, mode, ver, 45*time.Second)
 	}
@@ -45,9 +63,25 @@ func run(id uint64) bool {
 }
 
 func main() {
+	rig.StartLoadMeter()
 	if len(os.Args) == 3 && os.Args[1] == "one" {
 		id, _ := strconv.ParseUint(os.Args[2], 10, 64)
 		run(id)
+		fmt.Println("done")
+		return
+	}
+	if len(os.Args) == 5 && os.Args[1] == "only" {
+		// development aid: the first <count> scenarios of kind <mode> from seed*1000 on
+		seed, _ := strconv.ParseUint(os.Args[3], 10, 64)
+		n, _ := strconv.Atoi(os.Args[4])
+		for id := seed * 1000; n > 0; id++ {
+			if modeOf(id) == os.Args[2] {
+				n--
+				if !run(id) {
+					break
+				}
+			}
+		}
 		fmt.Println("done")
 		return
 	}
